@@ -3,6 +3,7 @@ package c01
 
 import (
 	"fmt"
+	"sync/atomic"
 
 	"github.com/insomniacslk/dhcp/dhcpv4"
 	"verif/seq/adapt"
@@ -77,6 +78,41 @@ func Run(c *fw.Ctx) {
 			c.Sample(describe(p))
 		}
 	})
+	// S5: decoded-then-edited values (edit.go)
+	var nEd atomic.Int64
+	type src struct {
+		ord  int64
+		desc string
+		p    *dhcpv4.DHCPv4
+	}
+	var srcs []src
+	v4gen.OptionSets(c.Thorough(), func(ord int64, desc string, o dhcpv4.Options) {
+		if desc == "S2" {
+			// single options: the lengths around every split boundary only
+			keep := false
+			for _, v := range o {
+				for _, b := range v4gen.BoundaryLens {
+					if len(v) == b || len(v) == 1275 {
+						keep = true
+					}
+				}
+			}
+			if !keep {
+				return
+			}
+		}
+		p := v4gen.Base()
+		p.Options = o
+		srcs = append(srcs, src{ord, desc, p})
+	})
+	c.Range(int64(len(srcs)), func(i int64) {
+		s := srcs[i]
+		k := runEdits(c, s.desc, n+cnt+s.ord, s.p)
+		nEd.Add(k)
+		c.Nontrivial(k)
+	})
+	c.Eval(nEd.Load())
+	c.Scope("S5:decoded-then-edited", "sources", len(srcs), "cases", nEd.Load(), "edits", "per option (first two and last two codes): UpdateOption with a value of another length, append on the map entry, delete, last byte flipped in place; a new option; yiaddr / chaddr bytes in place; xid and sname")
 	c.Scope("S2-S4:option-sets", "cases", cnt, "single_option_lengths", "0..1026,1275,1276,2040,4096", "boundary_lengths", v4gen.BoundaryLens)
 	c.Assume("reference decoder v4ref (stdlib only)", "nil == 0.0.0.0 and 4-byte == IPv4-mapped addresses (statement)")
 }
